@@ -205,9 +205,12 @@ impl<'r> Ctx<'r> {
         self.counter += 1;
         if self.cfg.hostile_idents && self.rng.below(3) == 0 {
             let i = self.rng.usize_below(HOSTILE_IDENTS.len());
-            if !self.used_hostile[i] {
+            // a name is handed out once per program — by value, since the pool may list a spelling twice
+            let name = HOSTILE_IDENTS[i];
+            let taken = HOSTILE_IDENTS.iter().enumerate().any(|(j, n)| *n == name && self.used_hostile[j]);
+            if !taken {
                 self.used_hostile[i] = true;
-                return HOSTILE_IDENTS[i].to_string();
+                return name.to_string();
             }
         }
         format!("{}{}", prefix, self.counter)
